@@ -121,7 +121,47 @@ type Dataflow struct {
 	Must     bool // true: join = intersection (facts hold on all paths); false: union
 	Init     Facts
 	Transfer func(n ast.Node, in Facts) Facts // must not mutate in
-	in       map[*cfg.Block]Facts
+	// Branch, if set, refines the state along the true/false edge of a conditional block. It is
+	// called on the leaves of the condition (after splitting &&, || and !) whose truth is implied.
+	Branch func(leaf ast.Expr, truth bool, s Facts) Facts
+	in     map[*cfg.Block]Facts
+}
+
+// refine applies Branch to the leaves of cond whose value is implied by cond == truth.
+func (d *Dataflow) refine(cond ast.Expr, truth bool, s Facts) Facts {
+	cond = ast.Unparen(cond)
+	switch c := cond.(type) {
+	case *ast.BinaryExpr:
+		if c.Op == token.LAND {
+			if truth {
+				return d.refine(c.Y, true, d.refine(c.X, true, s))
+			}
+			return s
+		}
+		if c.Op == token.LOR {
+			if !truth {
+				return d.refine(c.Y, false, d.refine(c.X, false, s))
+			}
+			return s
+		}
+	case *ast.UnaryExpr:
+		if c.Op == token.NOT {
+			return d.refine(c.X, !truth, s)
+		}
+	}
+	return d.Branch(cond, truth, s)
+}
+
+// edgeState gives the state flowing from b (whose end state is o) to its i-th successor.
+func (d *Dataflow) edgeState(b *cfg.Block, i int, o Facts) Facts {
+	if d.Branch == nil || len(b.Succs) != 2 || len(b.Nodes) == 0 {
+		return o
+	}
+	cond, ok := b.Nodes[len(b.Nodes)-1].(ast.Expr)
+	if !ok {
+		return o
+	}
+	return d.refine(cond, i == 0, o)
 }
 
 func (d *Dataflow) join(a, b Facts) Facts {
@@ -151,13 +191,14 @@ func (d *Dataflow) Run() {
 		b := work[0]
 		work = work[1:]
 		o := d.out(b, d.in[b])
-		for _, s := range b.Succs {
+		for i, s := range b.Succs {
 			old, seen := d.in[s]
+			eo := d.edgeState(b, i, o)
 			var nw Facts
 			if !seen {
-				nw = o
+				nw = eo
 			} else {
-				nw = d.join(old, o)
+				nw = d.join(old, eo)
 			}
 			if !seen || !nw.equal(old) {
 				d.in[s] = nw
